@@ -11,9 +11,9 @@ import (
 // Error is the concrete type of errors returned from RPC calls.
 // It also represents the JSON encoding of the JSON-RPC error object.
 type Error struct {
-	Code    Code            `json:"code"`              // the machine-readable error code
-	Message string          `json:"message,omitempty"` // the human-readable error message
-	Data    json.RawMessage `json:"data,omitempty"`    // optional ancillary error data
+	Code    Code            `json:"code"`           // the machine-readable error code
+	Message string          `json:"message"`        // the human-readable error message
+	Data    json.RawMessage `json:"data,omitempty"` // optional ancillary error data
 }
 
 // Error returns a human-readable description of e.
